@@ -334,13 +334,15 @@ func (a *Application) executeTranslatedNonStreamingRequest(
 
 	// Parse OpenAI response
 	var openaiResp map[string]interface{}
-	if jerr := json.Unmarshal(recorder.body.Bytes(), &openaiResp); jerr != nil {
-		return fmt.Errorf("failed to parse OpenAI response: %w", jerr)
-	}
+	jerr := json.Unmarshal(recorder.body.Bytes(), &openaiResp)
 
-	// handle backend errors
+	// handle backend errors: an error answer keeps its status whatever its body looks like
+	// (a gateway's HTML page, plain text, nothing at all)
 	if recorder.status >= 400 {
 		return a.handleNonStreamingBackendError(w, recorder, openaiResp, pr, trans)
+	}
+	if jerr != nil {
+		return fmt.Errorf("failed to parse OpenAI response: %w", jerr)
 	}
 
 	// transform and write successful response
